@@ -39,7 +39,9 @@ THEOREMS = ["Cppcheck.VarMap.varmap_refines_partial", "Cppcheck.VarMap.varmap_re
             "Cppcheck.VarMap.run_eq_srun_partial", "Cppcheck.VarMap.run_eq_srun_of_noGuse_partial", "Cppcheck.VarMap.run_guse_undeclared_counterexample",
             "Cppcheck.VarMap.resolve_eq_spec_partial", "Cppcheck.VarMap.resolve_enum_counterexample",
             "Cppcheck.VarMap.ids_distinct", "Cppcheck.VarMap.declIds_range",
-            "Cppcheck.VarMap.varmap_oldorder_counterexample", "Cppcheck.VarMap.resolveOld_counterexample"]
+            "Cppcheck.VarMap.varmap_oldorder_counterexample", "Cppcheck.VarMap.resolveOld_counterexample",
+            "Cppcheck.VarMap.classvars_refines_partial", "Cppcheck.VarMap.classvars_refines",
+            "Cppcheck.VarMap.classvars_two_bases_counterexample", "Cppcheck.VarMap.classvars_nooverwrite_counterexample"]
 MODULES = ["Cppcheck.Props.C08"]
 
 TYPES = ["int", "long", "unsigned", "short"]
@@ -649,6 +651,25 @@ def model_run(drv, cases):
     return res
 
 
+CRASHES = []      # inputs on which the real code crashed the harness (a C13 matter; recorded in the evidence, the run continues)
+
+
+def run_lines_robust(exe, lines, timeout=900):
+    """run_lines, but a crash of the real code on one input does not lose the rest: the crashing line gets `err crash`"""
+    out = []
+    todo = list(lines)
+    while todo:
+        rc, o, err = core.run_lines(exe, [], todo, timeout=timeout)
+        out += o[:len(todo)]
+        if len(o) >= len(todo):
+            break
+        k = len(o)                      # the harness died while working on todo[k]
+        CRASHES.append(dict(rc=rc, op=todo[k][:20000]))
+        out.append("err crash rc=%s" % rc)
+        todo = todo[k + 1:]
+    return out
+
+
 def impl_run(exe, cases):
     """real tokenizer; per case ('ok', A, B) = ids per occurrence after the token-list passes (setVarId) and after the complete
     simplifyTokens1 (None = no token on that line), or ('err'|'conflict', text)"""
@@ -658,9 +679,9 @@ def impl_run(exe, cases):
         c["text"] = text
         occs.append(occ)
         lines.append("%s %s" % ("cpp" if c["cpp"] else "c", core.hx(text)))
-    rc, out, err = core.run_lines(exe, [], lines, timeout=900)
+    out = run_lines_robust(exe, lines)
     if len(out) != len(cases):
-        raise core.CheckBroken("C08 harness produced %d lines for %d ops (rc=%s): %s" % (len(out), len(cases), rc, err[-500:]))
+        raise core.CheckBroken("C08 harness produced %d lines for %d ops" % (len(out), len(cases)))
     res = []
     for o, occ in zip(out, occs):
         m = re.match(r"^ok A(.*) \| B(.*)$", o)
@@ -992,6 +1013,7 @@ def statements(body, patterns):
         i += 1
     return sites
 
+SHAPE_PATTERNS2 = ["thisClassVars", "varsByClass"]     # setVarIdPass2: everything that fills or reads the per-class member table
 SHAPE_PATTERNS = ["variableMap.enterScope(", "variableMap.leaveScope(", "variableMap.addVariable(", "variableMap.map(globalNamespace).find(",
                   "tok->varId(it->second.id)", "scopeStack.emplace(", "scopeStack.pop(", "globalNamespace = ", "continue",
                   "functionDeclEndStack.p", "initlist = ", "inlineFunction = "]
@@ -1009,6 +1031,8 @@ def extract_shape(path):
             shape["sites"].append({"stmt": t, "guards": g})
     else:
         shape["sites"] = None
+    b2 = function_body(src, "void Tokenizer::setVarIdPass2()")
+    shape["sites2"] = None if b2 is None else [{"stmt": t, "guards": g} for t, g in statements(b2, SHAPE_PATTERNS2)]
     return shape
 
 
@@ -1038,7 +1062,17 @@ def check_shape(ctx, res):
             only_e = [x for x in es if x not in cs]
             diffs.append("setVarIdPass1: %d statement(s) with guards only in the source, %d only in the expected reading (or order changed); "
                          "source: %s | expected: %s" % (len(only_c), len(only_e), only_c[:2], only_e[:2]))
-    res.extra["setvarid_sites"] = len(cur["sites"] or [])
+    if cur.get("sites2") is None:
+        diffs.append("Tokenizer::setVarIdPass2 not found (unrecognised shape)")
+    else:
+        es = [(e["stmt"], e["guards"]) for e in exp.get("sites2", [])]
+        cs = [(e["stmt"], e["guards"]) for e in cur["sites2"]]
+        if es != cs:
+            only_c = [x for x in cs if x not in es]
+            only_e = [x for x in es if x not in cs]
+            diffs.append("setVarIdPass2 (thisClassVars / varsByClass): %d statement(s) with guards only in the source, %d only in the expected "
+                         "reading; source: %s | expected: %s" % (len(only_c), len(only_e), only_c[:2], only_e[:2]))
+    res.extra["setvarid_sites"] = len(cur["sites"] or []) + len(cur.get("sites2") or [])
     res.oblig("T:setvarid-shape", not diffs, "translation", "\n".join(diffs))
     return not diffs
 
@@ -1047,8 +1081,8 @@ def write_expected_shape():
     """regenerate corpus/C08/setvarid_shape.json from the current source (only after re-reading the code against implProg)"""
     cur = extract_shape(os.path.join(core.REPO, "lib", "tokenize.cpp"))
     old = json.load(open(SHAPE_FILE)) if os.path.exists(SHAPE_FILE) else {"sites": []}
-    notes = dict(((e["stmt"], tuple(e["guards"])), e.get("model")) for e in old.get("sites", []))
-    for e in cur["sites"]:
+    notes = dict(((e["stmt"], tuple(e["guards"])), e.get("model")) for e in old.get("sites", []) + old.get("sites2", []))
+    for e in cur["sites"] + (cur.get("sites2") or []):
         e["model"] = notes.get((e["stmt"], tuple(e["guards"])))
     json.dump(cur, open(SHAPE_FILE, "w"), indent=1)
 
@@ -1530,6 +1564,20 @@ class LinkGen:
         g.kinds = dict((o, v["kind"]) for o, v in g.oinfo.items())
         return g
 
+    def name_at(self, line):
+        """name of the declaration printed at this line of the cppcheck text"""
+        if not hasattr(self, "_line_names"):
+            self._line_names = {}
+            ln = 1 + self.header().replace("template<int N> struct Probe;\n", "").count("\n")
+            for tk in self.toks:
+                if tk[0] == "t":
+                    ln += tk[1].count("\n")
+                elif tk[0] in ("d", "u"):
+                    ln += 1
+                    self._line_names[ln] = tk[1]
+                    ln += 1
+        return self._line_names.get(line)
+
     # -- rendering -------------------------------------------------------------------------------------------------------
     def header(self):
         return ("template<int N> struct Probe;\n" + "".join("struct R%d { char c[%d]; };\n" % (k, k) for k in range(1, self.k + 1)) +
@@ -1555,6 +1603,173 @@ class LinkGen:
                     occ_line[tk[2]] = line
                 out.append(tk[1] + "\n"); line += 1
         return "".join(out), occ_line, decl_line
+
+
+class HierGen(LinkGen):
+    """class hierarchies (1-3 levels, single inheritance and two bases) whose data members are drawn from the same 4 names at
+    several levels (hiding); the names are used unqualified / via this-> / qualified Base::m in inline AND out-of-line member
+    functions and constructor initialiser lists, and through objects.  Oracle as for LinkGen: sizeof probes answered by g++."""
+
+    def new_occ(self, kind, name, **extra):
+        occ = self.nocc
+        self.nocc += 1
+        self.kinds[occ] = kind
+        self.oinfo[occ] = dict(kind=kind, name=name, prefix=extra.get("prefix", ""), usings={}, argtypes=[], scope=extra.get("cls", ""),
+                               udirs=[], fun_udirs=[], **dict((k, v) for k, v in extra.items() if k not in ("prefix", "cls")))
+        return occ
+
+    def member_use(self, ind, cls, name, how, outofline, where, body=-1):
+        """one use of member name `name` inside a member function of `cls`"""
+        prefix = {"plain": "", "this": "this->"}.get(how, how + "::")
+        kind = "hier-" + (how if how in ("plain", "this") else "base-qualified")
+        occ = self.new_occ(kind, name, prefix=prefix, cls=cls, outofline=outofline, where=where, body=body)
+        self.toks.append(("p", prefix + name, occ, ind))
+        self.t(ind + "sink(&" + prefix)
+        self.toks.append(("u", name, occ))
+        self.t(");\n")
+
+    def body(self, ind, cls, outofline, where):
+        rng = self.rng
+        info = self.classes[cls]
+        names = ["v%d" % j for j in range(4)]
+        visible = sorted(self.all_members(cls)) or names
+        self.nbody = getattr(self, "nbody", 0) + 1
+        bid = self.nbody
+        if not hasattr(self, "bad_bodies"):
+            self.bad_bodies = []          # bodies that name something that is not a member (not valid C++)
+        shadow = None
+        if rng.random() < 0.15:
+            shadow = rng.choice(names)       # a local that hides the member
+            k = self.newk()
+            self.dinfo[k] = ("local", "")
+            self.t("%sR%d" % (ind, k))
+            self.toks.append(("d", shadow, k))
+            self.t(";\n")
+        for _ in range(rng.choice([2, 3, 4])):
+            nm = rng.choice(visible) if rng.random() < 0.9 else rng.choice(names)
+            r = rng.random()
+            anc = self.ancestors(cls)
+            if r < 0.5:
+                how = "plain"
+            elif r < 0.75 or not anc:
+                how = "this"
+            else:
+                how = rng.choice(anc)
+            if nm not in self.all_members(cls) and nm not in self.gvars and nm != shadow:
+                self.bad_bodies.append(bid)
+            self.member_use(ind, cls, nm, how, outofline, where, body=bid)
+
+    def ancestors(self, cls):
+        out = []
+        for b in self.classes[cls]["bases"]:
+            out += [b] + self.ancestors(b)
+        return out
+
+    def all_members(self, cls):
+        m = set(self.classes[cls]["vars"])
+        for b in self.classes[cls]["bases"]:
+            m |= self.all_members(b)
+        return m
+
+    def prog(self):
+        rng = self.rng
+        self.classes = {}
+        order = []
+        later = []          # out-of-line definitions: (cls, kind, name)
+        if rng.random() < 0.3:
+            vn = "v%d" % rng.randrange(4)
+            self.gvars.append(vn)
+            self.decl_var(vn, kind="global-var")
+        ncls = rng.choice([2, 3, 3, 4])
+        nh = 0
+        for i in range(ncls):
+            cls = "C%d" % i
+            bases = []
+            if order:
+                r = rng.random()
+                if r < 0.65:
+                    bases = [rng.choice(order)]
+                elif r < 0.85 and len(order) >= 2:
+                    a, b = rng.sample(order, 2)
+                    if a not in self.ancestors(b) and b not in self.ancestors(a):
+                        bases = [a, b]
+                    else:
+                        bases = [b]
+            self.classes[cls] = dict(bases=bases, vars=[])
+            order.append(cls)
+            self.t("struct %s%s {\n" % (cls, (" : " + ", ".join(bases)) if bases else ""))
+            nv = rng.choice([1, 2, 2, 3])
+            names = rng.sample(["v%d" % j for j in range(4)], nv)
+            members_first = rng.random() < 0.7
+            def members():
+                for vn in names:
+                    self.classes[cls]["vars"].append(vn)
+                    self.decl_var(vn, ind="  ", kind="member", scope=cls)
+            if members_first:
+                members()
+            for _ in range(rng.choice([1, 2, 2])):
+                h = "h%d" % nh
+                nh += 1
+                if rng.random() < 0.45:
+                    self.t("  int %s() {\n" % h)
+                    if not members_first:       # the body may name members declared below (complete-class context)
+                        self.classes[cls]["vars"] = list(names)
+                    self.body("    ", cls, False, "inline-function")
+                    if not members_first:
+                        self.classes[cls]["vars"] = []
+                    self.t("    return 0;\n  }\n")
+                else:
+                    self.t("  int %s();\n" % h)
+                    later.append((cls, "fun", h))
+            if rng.random() < 0.6:
+                self.t("  %s();\n" % cls)
+                later.append((cls, "ctor", cls))
+            if not members_first:
+                members()
+            self.t("};\n")
+        rng.shuffle(later)
+        for cls, kind, name in later:
+            if kind == "fun":
+                self.t("int %s::%s() {\n" % (cls, name))
+                self.body("  ", cls, True, "out-of-line-function")
+                self.t("  return 0;\n}\n")
+            else:
+                own = list(self.classes[cls]["vars"])
+                inits = rng.sample(own, rng.choice([1, min(2, len(own))])) if own else []
+                occs = []
+                for vn in inits:
+                    # the mem-initializer-id is looked up in the scope of the class: same declaration as the qualified name
+                    occ = self.new_occ("hier-init-list", vn, prefix="", cls=cls, outofline=True, where="ctor-init-list")
+                    self.toks.append(("p", "%s::%s" % (cls, vn), occ, ""))
+                    occs.append((vn, occ))
+                self.t("%s::%s()" % (cls, cls))
+                for j, (vn, occ) in enumerate(occs):
+                    self.t(" : " if j == 0 else ", ")
+                    self.toks.append(("u", vn, occ))
+                    self.t("()")
+                self.t(" {\n")
+                self.body("  ", cls, True, "out-of-line-ctor-body")
+                self.t("}\n")
+        self.t("int g0() {\n")
+        for cls in order:
+            self.t("  %s o%s; %s *p%s = &o%s;\n" % (cls, cls[1:], cls, cls[1:], cls[1:]))
+        for _ in range(rng.choice([2, 3, 4])):
+            cls = rng.choice(order)
+            mem = sorted(self.all_members(cls))
+            if not mem:
+                continue
+            nm = rng.choice(mem)
+            anc = self.ancestors(cls)
+            acc = rng.choice(["o%s." % cls[1:], "p%s->" % cls[1:]])
+            if anc and rng.random() < 0.3:
+                acc += rng.choice(anc) + "::"
+            occ = self.new_occ("hier-object", nm, prefix=acc, cls=cls, outofline=False, where="object")
+            self.toks.append(("p", acc + nm, occ, "  "))
+            self.t("  sink(&" + acc)
+            self.toks.append(("u", nm, occ))
+            self.t(");\n")
+        self.t("  return 0;\n}\n")
+        return self
 
 
 # -- comparison and classification -----------------------------------------------------------------------------------------
@@ -1586,13 +1801,20 @@ def scope_prefix(outer, inner):
     return outer == "" or inner.startswith(outer + "::")
 
 
-def classify_link(g, occ, use_line, linked_k, linked_line, expected_k):
+def classify_link(g, occ, use_line, linked_k, linked_line, expected_k, expected_line=None):
     """specific classes of `token linked to another declaration than the compiler selects`"""
     oi = g.oinfo[occ]
     dl = g.dinfo.get(linked_k)
     de = g.dinfo.get(expected_k)
     if dl is None or de is None:
         return None
+    # F8k: a file-scope variable declared before the class is in the VariableMap when setVarIdPass1 walks a member function
+    # that is defined outside the class (or inline, when the member is inherited or declared below the function); the
+    # unqualified / this-> name gets the global's id there and setVarIdPass2 only fills tokens that have no id yet
+    if (oi.get("where") in ("out-of-line-function", "out-of-line-ctor-body", "inline-function") and oi["kind"] in ("hier-plain", "hier-this")
+            and dl[0] == "global-var" and de[0] == "member"
+            and (oi["where"] != "inline-function" or de[1] != oi.get("scope") or (expected_line or 0) > use_line)):
+        return "global-variable-wins-over-member-in-member-function"
     # K1: `using NS::x;` earlier in the function: every later token spelled x is treated as NS::x, also `s.x`, `::x` and
     # uses bound to an inner declaration of x
     if oi["name"] in oi["usings"] and dl[0] == "ns-var" and dl[1] == oi["usings"][oi["name"]]:
@@ -1639,7 +1861,7 @@ def gxx_probe_batch(ctx, gens, tag):
     text, starts = "", []
     for i, g in enumerate(gens):
         t = g.render(True)[0]
-        t = re.sub(r"\b([vfNSRgqaspbl]\d+)\b", lambda m: "X%d_%s" % (i, m.group(1)), t)
+        t = re.sub(r"\b([vfNSRgqaspblCho]\d+)\b", lambda m: "X%d_%s" % (i, m.group(1)), t)
         t = t.replace("template<int N> struct Probe;\n", "" if i else "template<int N> struct Probe;\n")
         t = t.replace("void sink(const void *);\n", "" if i else "void sink(const void *);\n")
         starts.append(text.count("\n") + 1)
@@ -1694,11 +1916,11 @@ def link_compare(g, probes, harness_line):
             k2line = dict((k, l) for l, k in decl.items())
             res.append(("wrong", dict(occ=o, use_line=occ[o], linked=v, linked_decl=g.dinfo.get(kc), compiler_decl=g.dinfo.get(probes[o]),
                                       compiler_line=k2line.get(probes[o]), info=g.oinfo[o],
-                                      key=classify_link(g, o, occ[o], kc, ll, probes[o]))))
+                                      key=classify_link(g, o, occ[o], kc, ll, probes[o], k2line.get(probes[o])))))
     return res, text
 
 
-def link_tie(ctx, res, exe, n, batch=20):
+def link_tie(ctx, res, exe, n, batch=20, drv=None):
     """sampled tie for the part of the property outside the Lean model: calls / overloads, members, namespaces, static
     members, lambdas.  Oracle = g++ (sizeof probes), implementation = Token::variable / Token::function after simplifyTokens1."""
     rng = ctx.rng
@@ -1708,7 +1930,10 @@ def link_tie(ctx, res, exe, n, batch=20):
         gens.append(LinkGen.from_json(w["prog"]))
         origin.append("corpus:" + w["key"])
     for _ in range(n):
-        gens.append(LinkGen(rng, size=rng.choice([0.6, 1.0, 1.0]), order=rng.random() < 0.2).prog())
+        if rng.random() < 0.3:
+            gens.append(HierGen(rng).prog())
+        else:
+            gens.append(LinkGen(rng, size=rng.choice([0.6, 1.0, 1.0]), order=rng.random() < 0.2).prog())
         origin.append("generated")
     jobs = [(b, gens[b:b + batch]) for b in range(0, len(gens), batch)]
     with concurrent.futures.ThreadPoolExecutor(max_workers=2) as ex:
@@ -1717,6 +1942,8 @@ def link_tie(ctx, res, exe, n, batch=20):
     rc, out, err = core.run_lines(exe, [], ["link " + core.hx(g.render(False)[0]) for g in gens], timeout=900)
     if len(out) != len(gens):
         raise core.CheckBroken("C08 harness (link) produced %d lines for %d programs: %s" % (len(out), len(gens), err[-300:]))
+    if drv is not None:
+        classvars_tie(ctx, res, drv, gens, probes, out)
     nprobe = nvalid = 0
     viol = []
     for k, (g, pr, o) in enumerate(zip(gens, probes, out)):
@@ -1756,6 +1983,72 @@ def link_tie(ctx, res, exe, n, batch=20):
     for key, cnt in seen.items():
         res.count("link:wrong-class:%s" % key, cnt)
     return viol
+
+
+def classvars_tie(ctx, res, drv, gens, probes, outs):
+    """correspondence for the Lean model of setVarIdPass2's member table (Model/ClassVars.lean): in member functions defined
+    OUTSIDE the class and in constructor initialiser lists, an unqualified / this-> member name that no local, parameter or
+    earlier file-scope variable shadows is linked to the declaration `classVarId` names (0 = not linked)"""
+    ops, meta = [], []
+    for gi, (g, o) in enumerate(zip(gens, outs)):
+        if not isinstance(g, HierGen) or not o.startswith("ok"):
+            continue
+        # a function body in which g++ could not answer some probe (undeclared / ambiguous / wrongly qualified name) is not
+        # valid C++: the tie compares only bodies the compiler accepts
+        rejected = set(g.oinfo[oc].get("body", -1) for oc in range(g.nocc) if oc not in probes[gi])
+        text, occ, decl = g.render(False)
+        order = sorted(g.classes, key=lambda c: int(c[1:]))
+        idx = dict((c, k) for k, c in enumerate(order))
+        k_of = {}          # (class, name) -> tag of the member declaration
+        for k, d in g.dinfo.items():
+            pass
+        line_k = decl
+        own = dict((c, []) for c in order)
+        # member declarations in textual order: toks carry them as ("d", name, k) with dinfo kind member
+        for tk in g.toks:
+            if tk[0] == "d" and g.dinfo.get(tk[2], ("",))[0] == "member":
+                own[g.dinfo[tk[2]][1]].append((int(tk[1][1:]), tk[2]))
+        enc = [str(len(order))]
+        for c in order:
+            bs = [idx[b] for b in g.classes[c]["bases"]]
+            enc += [str(len(bs))] + [str(b) for b in bs] + [str(len(own[c]))] + [str(v) for p in own[c] for v in p]
+        links = {}
+        for e in o.split()[1:]:
+            l, v = e.split(":")
+            links.setdefault(int(l), set()).add(v)
+        shadow_lines = sorted(l for l, k in decl.items() if g.dinfo.get(k, ("",))[0] == "local")
+        for oc in range(g.nocc):
+            oi = g.oinfo[oc]
+            if oi.get("where") not in ("out-of-line-function", "out-of-line-ctor-body", "ctor-init-list") or oi["kind"] not in ("hier-plain", "hier-this", "hier-init-list"):
+                continue
+            if oi["name"] in g.gvars:
+                continue           # F8k: the file-scope variable's id is already there
+            if oi.get("body", -1) in getattr(g, "bad_bodies", []) or oi.get("body", -1) in rejected:
+                continue           # the function body names something that is not a member: not a valid program
+            if oi["kind"] == "hier-plain" and any(g.name_at(l) == oi["name"] for l in shadow_lines):
+                continue           # a local of that name somewhere in the program: keep the comparison simple, skip the name
+            lk = links.get(occ[oc], {"?"})
+            v = sorted(lk)[0]
+            real = 0 if (len(lk) != 1 or v in ("-", "?")) else decl.get(int(v[1:]), -1)
+            ops.append("cls " + " ".join(enc) + " %d %d" % (idx[oi["scope"]], int(oi["name"][1:])))
+            meta.append((gi, oc, real))
+    if not ops:
+        res.oblig("correspondence:classvars-model", False, "correspondence", "no hierarchy program produced a comparable member use")
+        return
+    rc, out, err = core.run_lines(drv, [], ops, timeout=600)
+    bad = []
+    for (gi, oc, real), line in zip(meta, out):
+        m = re.match(r"^T (\d+) \| L (\S+) \| wf (\d) \| single (\d)$", line)
+        if not m or int(m.group(1)) != real:
+            bad.append((gi, oc, real, line))
+        res.count("classvars:" + (m.group(2).split(":")[0] if m else "bad"))
+    res.traces_validated += len(ops) - len(bad)
+    detail = ""
+    if bad:
+        gi, oc, real, line = bad[0]
+        detail = "%d of %d member uses: real link (declaration tag %s) differs from the model `%s`; use %s\n%s" % (
+            len(bad), len(ops), real, line, gens[gi].oinfo[oc], inline_vf(gens[gi].render(False)[0])[-1800:])
+    res.oblig("correspondence:classvars-model", len(out) == len(ops) and not bad, "correspondence", detail)
 
 
 def inline_vf(text):
@@ -1848,7 +2141,7 @@ def run(ctx, res):
               "" if wit and not nodisc else "corpus witnesses of F4 missing or not discriminating: %s" % nodisc)
     viol, mism = compare(ctx, res, "tokenizer-varids", cases, impl, model)
     clang_oracle(ctx, res, cases, model, 4000 if thorough else 300)
-    link_tie(ctx, res, exe, 1500 if thorough else 160)
+    link_tie(ctx, res, exe, 1500 if thorough else 160, drv=drv)
     if thorough and not os.environ.get("VERIF_C08_HARNESS"):
         dump_tie(ctx, res, cases, impl, 250)
     # violation search: the correspondence broke but no explored case violates the property itself -> widen and shrink
@@ -1868,6 +2161,9 @@ def run(ctx, res):
                                 key=classify(small, im[1], mo, occ, bad, dup_ids)))
     viol.sort(key=lambda v: v["key"] in known)      # unknown classes first
     report(res, viol)
+    if CRASHES:
+        res.extra["harness_crashes"] = [dict(rc=c["rc"], lang=c["op"].split(" ")[0], source=core.unhx(c["op"].split(" ")[1]).decode("latin-1")[:3000]) for c in CRASHES[:3]]
+        res.notes.append("the real code crashed on %d generated input(s) (see harness_crashes in the evidence): outside C08, a C13 matter" % len(CRASHES))
 
 
 def search(ctx, res, drv, exe):
